@@ -120,6 +120,9 @@ type Op struct {
 	Args   []int  `json:"args"`   // indices into World.Args, in call order
 	Redef  int    `json:"redef"`  // callredef: index of the earlier redefine op
 	Thread int    `json:"thread"` // simulated caller thread
+	// Twin is a stable id of the operation across a history and its twin (the
+	// same history with some operations removed); 0 = none.
+	Twin int `json:"twin,omitempty"`
 }
 
 // Fault is one entry of the fault plan.
